@@ -93,6 +93,15 @@ var strPool = []string{"", "s", "t", "<>&", "a\"b", "back\\slash", "tab\t", " 
 	// neighbours of the byte patterns the HTML escaper looks for (E2 80 A8 / E2 80 A9)
 	"\u2068", "\u2069", "\u2027", "\u202a", "\u3028", "\u20a8", "\u2028\u2029", "a\u2028", "\xe2\x80", "\xe2", "\f", "\b\f\v"}
 
+// runs of bytes that are not UTF-8 (each decodes to U+FFFD, three bytes for one: the
+// decoder's output buffer has to grow), at every small length and offset
+func init() {
+	for n := 1; n <= 9; n++ {
+		strPool = append(strPool, strings.Repeat("\xff", n), "ab"[:n%3]+strings.Repeat("\x80", n))
+	}
+	namePool = append(namePool, "\xff\xff\xff", strings.Repeat("\xff", 5), strings.Repeat("\xfe", 6), "k"+strings.Repeat("\xc0", 8))
+}
+
 type genCfg struct {
 	depth     int
 	plain     bool // only plain names, no duplicate-ish names, canonical numbers
